@@ -39,6 +39,7 @@ extern "C" void h_hostile_stream(void) {
   while (i < total && !puback_seen) {
     ref::packet k; int rv = ref::decode(copy + i, total - i, k, ref::L_OMIT_PROPS | ref::L_TRAILING | ref::L_DUP_PROPS);
     if (rv != ref::OK) { bad_before = (rv == ref::BAD); break; }
+    if (k.total > 32) break;                 // larger than the client's Maximum Packet Size: refused whatever it contains (checked above)
     if (k.type == ref::PUBACK && k.pid == 1) { puback_seen = true; puback_rc = k.rc; break; }
     bool harmless = k.type == ref::PINGRESP || ((k.type == ref::PUBACK || k.type == ref::PUBREC || k.type == ref::PUBCOMP || k.type == ref::SUBACK || k.type == ref::UNSUBACK) && k.pid != 1);
     if (!harmless) only_harmless_before = false;
